@@ -13,7 +13,7 @@ use crate::util::{fnv_str, Tape};
 use crate::{rlex, rparse};
 use serde_json::{json, Value};
 
-pub const RULE: &str = "wide texts = (i) a padding conjunction / disjunction over 60..70, 126..130 or 254..258 (thorough: ..600) fresh names followed by a random formula of the full language (quantifiers, counting, fixed points) over a few late names and some padding names, so that the variables the formula works on have ids beyond 64 / 128 / 256; (ii) reachability in a k-bit counter as lfp (and its gfp dual), k = 1..9 (thorough 11): 2^k - c applications over 2k variables; (iii) counting comparisons over lists of 14..21 (thorough 23) literals. Oracle: the reference semantics evaluated on the harness's own node-based ROBDD package; the answer is read back by variable NAME and must be the same reference node; it must not mention a bound-only name. Non-trivial = more than 16 names or more than 16 fixed-point applications or more than 12 list entries.";
+pub const RULE: &str = "wide texts = (i) a padding conjunction / disjunction over 60..70, 126..130 or 254..258 (thorough: ..600) fresh names followed by a random formula of the full language (quantifiers, counting, fixed points) over a few late names and some padding names, so that the variables the formula works on have ids beyond 64 / 128 / 256; (ii) reachability in a k-bit counter as lfp (and its gfp dual), k = 1..9 (thorough 11): 2^k - c applications over 2k variables; (iii) counting comparisons over lists of 14..21 (thorough 22) literals. Oracle: the reference semantics evaluated on the harness's own node-based ROBDD package; the answer is read back by variable NAME and must be the same reference node; it must not mention a bound-only name. Non-trivial = more than 16 names or more than 16 fixed-point applications or more than 12 list entries.";
 
 /// Compare the implementation's answer for `text` with the reference semantics.
 pub fn check_text(text: &str, fp_limit: Option<usize>) -> Check {
@@ -223,7 +223,7 @@ pub fn stage_padded(ctx: &mut Ctx, name: &str, cases: u64, quant_bias: bool) -> 
 
 /// counting over long lists of literals, through the language
 pub fn long_list_text(t: &mut Tape, thorough: bool) -> String {
-    let len = 14 + t.choose(if thorough { 10 } else { 8 });
+    let len = 14 + t.choose(if thorough { 9 } else { 8 });
     let items: Vec<String> = (0..len)
         .map(|i| {
             let nm = if t.chance(24) && i > 0 { format!("x{}", t.choose(i)) } else { format!("x{}", i) };
